@@ -1,5 +1,6 @@
 (* C06 — Wrapped and sealed keys are tamper-evident and bound to header, key and password. *)
-From PV Require Import Bytes Result Oracle Local Paserk PaserkProofs.
+From PV Require Import Bytes Result Oracle Local Paserk PaserkProofs PkeProofs.
+Local Open Scope string_scope.
 Local Open Scope list_scope.
 
 (* ---- PIE: exactly tag || nonce || c with tag = MAC(Ak(wk, nonce), "kN" || header || nonce || c) ---- *)
@@ -63,6 +64,88 @@ Theorem C06_pbkw_unwrap_no_panic : forall O P header pass d,
   In P (all_pw O) -> is_panic (pw_unwrap P header pass d) = false.
 Proof. intros O P header pass d HP. exact (pw_unwrap_no_panic P header pass d (all_pw_prekey_no_panic O P HP)). Qed.
 
+(* ---- PKE (seal): exactly tag || epk || edk (k1: tag || edk || c), key agreement succeeded, tag = MAC ---- *)
+Theorem C06_v4_pke_is_generic : forall O sk d,
+  v4_pke_unseal O sk d = x_pke_unseal O (str "k4") false (fun sk => Some (x_of_seed O sk)) sk d.
+Proof. reflexivity. Qed.
+Theorem C06_v2_pke_is_generic : forall O sk d,
+  v2_pke_unseal O sk d = x_pke_unseal O (str "k2") false (fun sk => Some (x_of_seed O sk)) sk d.
+Proof. reflexivity. Qed.
+Theorem C06_v4_sodium_pke_is_generic : forall O sk d,
+  na_pke_unseal O sk d = x_pke_unseal O (str "k4") true (fun sk => x_of_edpk O (drop 32 sk)) sk d.
+Proof. reflexivity. Qed.
+Theorem C06_v3_pke_is_generic : forall O sk d,
+  v3_pke_unseal O sk d = v3_pke_unseal_gen O ctr_w_rustcrypto CryptoError sk d /\
+  lc_pke_unseal O sk d = v3_pke_unseal_gen O ctr_w_awslc InvalidKey sk d.
+Proof. split; reflexivity. Qed.
+
+Theorem C06_pke_x25519_accept_iff : forall O ver strict xpk_of sk data k,
+  x_pke_unseal O ver strict xpk_of sk data = Ok k <->
+  exists tag epk edk xpk,
+    data = tag ++ epk ++ edk /\ length tag = 32 /\ length epk = 32 /\ length edk = 32 /\
+    xpk_of sk = Some xpk /\
+    strict && beq (x_mul_seed O (take 32 sk) epk) zero32 = false /\
+    x_tag O ver (x_mul_seed O (take 32 sk) epk) epk xpk edk = tag /\
+    k = xorl edk (xchacha20 O (x_ek O ver (x_mul_seed O (take 32 sk) epk) epk xpk) (x_nonce O epk xpk) 32).
+Proof. exact x_pke_accept_iff. Qed.
+Theorem C06_pke_x25519_wrong_length : forall O ver strict xpk_of sk data,
+  length data <> 96 -> x_pke_unseal O ver strict xpk_of sk data = Err InvalidKey.
+Proof. exact x_pke_wrong_length. Qed.
+Theorem C06_pke_x25519_tag_tamper : forall O ver strict xpk_of sk tag' epk edk xpk,
+  length tag' = 32 -> length epk = 32 -> length edk = 32 -> xpk_of sk = Some xpk ->
+  strict && beq (x_mul_seed O (take 32 sk) epk) zero32 = false ->
+  tag' <> x_tag O ver (x_mul_seed O (take 32 sk) epk) epk xpk edk ->
+  x_pke_unseal O ver strict xpk_of sk (tag' ++ epk ++ edk) = Err CryptoError.
+Proof. exact x_pke_tag_tamper. Qed.
+Theorem C06_pke_x25519_forgery_is_collision : forall O ver strict xpk_of sk epk edk xpk epk' edk' k',
+  length epk = 32 -> length edk = 32 -> length epk' = 32 -> xpk_of sk = Some xpk ->
+  length (x_tag O ver (x_mul_seed O (take 32 sk) epk) epk xpk edk) = 32 ->
+  x_pke_unseal O ver strict xpk_of sk (x_tag O ver (x_mul_seed O (take 32 sk) epk) epk xpk edk ++ epk' ++ edk') = Ok k' ->
+  (epk', edk') <> (epk, edk) ->
+  x_tag O ver (x_mul_seed O (take 32 sk) epk') epk' xpk edk' = x_tag O ver (x_mul_seed O (take 32 sk) epk) epk xpk edk
+  /\ (epk', edk') <> (epk, edk).
+Proof. exact x_pke_forgery_is_collision. Qed.
+
+Theorem C06_pke_v3_accept_iff : forall O W bad sk data k,
+  v3_pke_unseal_gen O W bad sk data = Ok k <->
+  exists tag epk edk pk epk' xk,
+    data = tag ++ epk ++ edk /\ length tag = 48 /\ length epk = 49 /\ length edk = 32 /\
+    p384_pk O sk = Some pk /\ p384_parse O epk = Some epk' /\ ecdh_p384 O sk epk' = Some xk /\
+    v3_tag O xk epk pk edk = tag /\
+    k = xorl edk (aes_ctr O W (v3_ek O xk epk pk) (v3_n O xk epk pk) 32).
+Proof. exact v3_pke_accept_iff. Qed.
+Theorem C06_pke_v3_wrong_length : forall O W bad sk data,
+  length data <> 129 -> v3_pke_unseal_gen O W bad sk data = Err InvalidKey.
+Proof. exact v3_pke_wrong_length. Qed.
+Theorem C06_pke_v3_tag_tamper : forall O W bad sk tag' epk edk pk epk' xk,
+  length tag' = 48 -> length epk = 49 -> length edk = 32 ->
+  p384_pk O sk = Some pk -> p384_parse O epk = Some epk' -> ecdh_p384 O sk epk' = Some xk ->
+  tag' <> v3_tag O xk epk pk edk ->
+  v3_pke_unseal_gen O W bad sk (tag' ++ epk ++ edk) = Err CryptoError.
+Proof. exact v3_pke_tag_tamper. Qed.
+
+Theorem C06_pke_v1_accept_iff : forall O sk data k,
+  v1_pke_unseal O sk data = Ok k <->
+  exists tag edk c rn,
+    data = tag ++ edk ++ c /\ length tag = 48 /\ length edk = 32 /\ length c = 512 /\
+    rsa_dec O sk (be_val c) = Some rn /\
+    v1_tag O c (be_minimal rn) edk = tag /\
+    k = xorl edk (aes_ctr O ctr_w_rustcrypto (v1_ek O c (be_minimal rn)) (v1_n O c (be_minimal rn)) 32).
+Proof. exact v1_pke_accept_iff. Qed.
+Theorem C06_pke_v1_wrong_length : forall O sk data,
+  length data <> 592 -> v1_pke_unseal O sk data = Err InvalidKey.
+Proof. exact v1_pke_wrong_length. Qed.
+Theorem C06_pke_v1_tag_tamper : forall O sk tag' edk c rn,
+  length tag' = 48 -> length edk = 32 -> length c = 512 -> rsa_dec O sk (be_val c) = Some rn ->
+  tag' <> v1_tag O c (be_minimal rn) edk ->
+  v1_pke_unseal O sk (tag' ++ edk ++ c) = Err CryptoError.
+Proof. exact v1_pke_tag_tamper. Qed.
+
+Theorem C06_pke_mac_input_injective : forall (v v' h epk epk' edk edk' : bytes),
+  length v = 2 -> length v' = 2 -> length epk = length epk' ->
+  v ++ h ++ epk ++ edk = v' ++ h ++ epk' ++ edk' -> (v, epk, edk) = (v', epk', edk').
+Proof. exact pke_mac_input_injective. Qed.
+
 Print Assumptions C06_pie_accept_iff.
 Print Assumptions C06_pie_short.
 Print Assumptions C06_pie_tag_tamper.
@@ -73,3 +156,18 @@ Print Assumptions C06_pbkw_short.
 Print Assumptions C06_pbkw_tag_tamper.
 Print Assumptions C06_pie_unwrap_no_panic.
 Print Assumptions C06_pbkw_unwrap_no_panic.
+Print Assumptions C06_v4_pke_is_generic.
+Print Assumptions C06_v2_pke_is_generic.
+Print Assumptions C06_v4_sodium_pke_is_generic.
+Print Assumptions C06_v3_pke_is_generic.
+Print Assumptions C06_pke_x25519_accept_iff.
+Print Assumptions C06_pke_x25519_wrong_length.
+Print Assumptions C06_pke_x25519_tag_tamper.
+Print Assumptions C06_pke_x25519_forgery_is_collision.
+Print Assumptions C06_pke_v3_accept_iff.
+Print Assumptions C06_pke_v3_wrong_length.
+Print Assumptions C06_pke_v3_tag_tamper.
+Print Assumptions C06_pke_v1_accept_iff.
+Print Assumptions C06_pke_v1_wrong_length.
+Print Assumptions C06_pke_v1_tag_tamper.
+Print Assumptions C06_pke_mac_input_injective.
